@@ -22,48 +22,126 @@ OWNERS = [
 def validate_policy(run):
     """the CFG's model of handle_error / raise_error is read off RuntimeContext's own source"""
     f = run.repo.func("utype.parser.options", "RuntimeContext.handle_error")
-    fa = analysis(f)
-    params = f.params
-    if "force_raise" not in params:
+    if "force_raise" not in f.params:
         raise AnalysisError("RuntimeContext.handle_error has no force_raise parameter: the CFG policy is stale")
-    # a normal return exists (may-return) ...
-    may_return = fa.cfg.exit in fa.cfg.reachable(kinds=(N,))
-    # ... and on every path to it the first raise-test was false with force_raise part of it
-    raises = [n for n in fa.cfg.nodes if n.kind == "stmt" and isinstance(n.ast, ast.Raise)]
-    if not raises or not may_return:
-        raise AnalysisError("RuntimeContext.handle_error no longer both returns and raises: the CFG policy is stale")
-    forced_ok = False
-    for r in raises:
-        for a, pol in fa.facts.atoms_at(r):
-            pass
-        for b in fa.facts.branch_facts(r):
-            if b.polarity and "force_raise" in names_in(b.test):
-                t = b.test
-                if isinstance(t, ast.BoolOp) and isinstance(t.op, ast.Or) and any(
-                        isinstance(v, ast.Name) and v.id == "force_raise" for v in t.values):
-                    forced_ok = True
-                if isinstance(t, ast.Name):
-                    forced_ok = True
-    run.check("R10-policy", f, "handle_error raises whenever force_raise is set (disjunct of the first raise test) and "
-                               "can return otherwise", forced_ok,
+    he, g, rows_h, rows_r = context_tables(run)
+    bad = _handle_error_mismatches(rows_h)
+    run.floor("R10-policy", "rows of the handle_error decision table", len(rows_h), 300)
+    w = bad.get("force_raise")
+    run.check("R10-policy", f, "handle_error raises the error itself whenever force_raise is set (decision table)", w is None,
               construct="force_raise does not force the raise",
-              message="RuntimeContext.handle_error does not raise unconditionally under force_raise=True",
+              message="RuntimeContext.handle_error does not raise unconditionally under force_raise=True"
+                      + (f": for [{w[0]}] it {w[1]!r}, expected: {w[2]}" if w else ""),
               necessity="callers rely on force_raise=True never returning (they use the failed value afterwards)")
-    g = run.repo.func("utype.parser.options", "RuntimeContext.raise_error")
-    ga = analysis(g)
-    rs = [n for n in ga.cfg.nodes if n.kind == "stmt" and isinstance(n.ast, ast.Raise)]
-    run.check("R10-policy", g, "raise_error raises a CollectedParseError when errors or tmp_errors are present",
-              bool(rs), construct="raise_error never raises", message="RuntimeContext.raise_error has no raise")
-    # raise_error must consider both lists: the early return is guarded by `not errors and not tmp_errors`
-    for n in ga.cfg.nodes:
-        if n.kind == "stmt" and isinstance(n.ast, ast.Return) and ga.cfg.is_live(n):
-            atoms = {(unparse(a), p) for a, p in ga.facts.atoms_at(n)}
-            ok = ("self.errors", False) in atoms and ("self.tmp_errors", False) in atoms
-            run.check("R10-policy", g, "raise_error returns silently only when both errors and tmp_errors are empty", ok,
-                      construct="raise_error early return not guarded by both lists",
-                      message=f"raise_error returns under {sorted(atoms)}: a recorded error can be dropped",
-                      necessity="a union whose every branch failed (tmp_errors) or a collected error would be "
-                                "silently accepted", node=n.ast)
+    w = bad.get("fail-fast")
+    run.check("R10-policy", f, "handle_error raises the error itself when errors are not collected (decision table)", w is None,
+              construct="fail-fast mode does not raise the error",
+              message="RuntimeContext.handle_error does not raise the error at once with collect_errors off"
+                      + (f": for [{w[0]}] it {w[1]!r}, expected: {w[2]}" if w else ""),
+              necessity="the default mode reports the first failing item as a ParseError of its own kind; anything else "
+                        "changes the verdict or the kind of failure")
+    # raise_error: silent exactly when nothing is recorded and nothing is undecided; otherwise everything is reported
+    wrong = None
+    for (k_, t_), got, after in rows_r:
+        want = "return" if k_ + t_ == 0 else ("collected", [f"e{i}" for i in range(k_)] + [f"t{i}" for i in range(t_)])
+        if got != want and wrong is None:
+            wrong = (f"{k_} recorded, {t_} undecided", got, want)
+    run.check("R10-policy", g, "raise_error raises a CollectedParseError with every recorded and undecided error, and "
+                               "returns silently only when there is none (decision table)", wrong is None,
+              construct="raise_error early return not guarded by both lists" if (wrong and wrong[1] == "return")
+              else "raise_error never raises",
+              message="RuntimeContext.raise_error: " + (f"with {wrong[0]} it gives {wrong[1]!r}, expected {wrong[2]!r}" if wrong else ""),
+              necessity="a union whose every branch failed (tmp_errors) or a collected error would be silently accepted")
+
+
+def context_tables(run):
+    """RuntimeContext.handle_error and raise_error as decision tables: both are interpreted (absint.py - the checker's own
+    interpreter over modelled objects; nothing of the library runs) for every combination of force_raise, the context's
+    force_error, collect_errors, max_errors in {None, 0, 1, 2, 3}, 0..2 errors recorded before and 0..1 undecided errors.
+    -> (rows_handle, rows_raise); a row is (inputs, outcome, errors afterwards) with outcome
+    'return' | ('raise-e',) | ('collected', [errors...]) | ('other', class)"""
+    cached = getattr(run, "_context_tables", None)
+    if cached is not None:
+        return cached
+    import itertools
+    from ..absint import Interp, Obj, Raised
+    C = run.repo.cls("utype.parser.options", "RuntimeContext")
+    he = run.repo.func("utype.parser.options", "RuntimeContext.handle_error")
+    re_ = run.repo.func("utype.parser.options", "RuntimeContext.raise_error")
+    methods = {m.name: m.node for m in C.methods.values()}
+
+    def collected(errors=None, **kw):
+        return Obj("CollectedParseError", _exc=True, args=(tuple(errors if errors is not None else ()),),
+                   _bases=("ParseError", "Exception"))
+    excmod = Obj("module exc", CollectedParseError=collected)
+
+    def ctx(k, t, force_error, collect, cap):
+        return Obj("RuntimeContext", errors=[f"e{i}" for i in range(k)], tmp_errors=[f"t{i}" for i in range(t)],
+                   force_error=force_error, warnings=[],
+                   options=Obj("Options", collect_errors=collect, max_errors=cap))
+
+    def outcome(call):
+        try:
+            call()
+        except Raised as r:
+            if r.cls == "CollectedParseError":
+                return ("collected", list(r.args_[0]) if r.args_ else None)
+            if r.cls == "TheError":
+                return ("raise-e",)
+            return ("other", r.cls)
+        return "return"
+    rows_h = []
+    for force_raise, force_error, collect in itertools.product((False, True), repeat=3):
+        for cap in (None, 0, 1, 2, 3):
+            for k in (0, 1, 2):
+                for t in (0, 1):
+                    self_ = ctx(k, t, force_error, collect, cap)
+                    e = Obj("TheError", _exc=True, args=("the error",), _bases=("ParseError", "Exception"))
+                    ip = Interp(globals_={"exc": excmod}, methods=methods, module=he.module)
+                    for kw in (({"force_raise": True},) if force_raise else ({}, {"force_raise": False})):
+                        self_ = ctx(k, t, force_error, collect, cap)
+                        got = outcome(lambda: ip.call_function(he.node, (self_, e), dict(kw)))
+                        after = [("e" if x is e else x) for x in self_.errors]
+                        rows_h.append(((force_raise, force_error, collect, cap, k, t), got, after))
+    rows_r = []
+    for k in (0, 1, 2):
+        for t in (0, 1, 2):
+            self_ = ctx(k, t, False, True, None)
+            ip = Interp(globals_={"exc": excmod}, methods=methods, module=re_.module)
+            got = outcome(lambda: ip.call_function(re_.node, (self_,), {}))
+            rows_r.append(((k, t), got, list(self_.errors)))
+    run._context_tables = (he, re_, rows_h, rows_r)
+    return run._context_tables
+
+
+def _handle_error_mismatches(rows_h):
+    """-> {clause: (inputs, got, expected)} against the documented behaviour of handle_error"""
+    bad = {}
+    for (force_raise, force_error, collect, cap, k, t), got, after in rows_h:
+        before = [f"e{i}" for i in range(k)]
+        tmp = [f"t{i}" for i in range(t)]
+        inp = (f"force_raise={force_raise}, context.force_error={force_error}, collect_errors={collect}, max_errors={cap}, "
+               f"{k} error(s) recorded, {t} undecided")
+        if after != before + ["e"]:
+            bad.setdefault("recorded", (inp, f"errors afterwards {after}", f"{before + ['e']}"))
+        if force_raise and got != ("raise-e",):
+            bad.setdefault("force_raise", (inp, got, "raises the error itself"))
+        elif force_error and not force_raise and got != ("raise-e",):
+            bad.setdefault("force_error", (inp, got, "raises the error itself"))
+        elif not collect and got != ("raise-e",):
+            bad.setdefault("fail-fast", (inp, got, "raises the error itself"))
+        if not (force_raise or force_error or not collect):
+            if cap is not None and k + 1 >= cap:
+                want = ("collected", before + ["e"] + tmp)
+                g2 = got
+                if isinstance(got, tuple) and got[0] == "collected" and got[1] is not None:
+                    g2 = ("collected", [("e" if not isinstance(x, str) else x) for x in got[1]])
+                if g2 != want:
+                    clause = "cap" if not (isinstance(got, tuple) and got[0] == "collected") else "cap-content"
+                    bad.setdefault(clause, (inp, g2, want))
+            elif got != "return":
+                bad.setdefault("below-cap", (inp, got, "returns (the error stays collected)"))
+    return bad
 
 
 def he_sites(funcs) -> List[Tuple[FuncInfo, FuncAnalysis, Node, ast.Call]]:
@@ -245,51 +323,34 @@ def r10b(run, funcs):
 
 
 def r10c(run):
-    f = run.repo.func("utype.parser.options", "RuntimeContext.handle_error")
-    fa = analysis(f)
-    app = [n for n, c in fa.all_calls() if call_attr(c) == "append" and unparse(c.func.value) == "self.errors"]
-    run.check("R10c", f, "handle_error records the error (self.errors.append) before anything else", len(app) == 1 and
-              all(fa.cfg.dominates(app[0], n) for n in fa.cfg.nodes if n.kind == "stmt" and isinstance(n.ast, ast.Raise)),
+    """the max_errors cap, decided on the handle_error decision table (context_tables): the error is recorded on every
+    outcome; once the number of recorded errors reaches max_errors a CollectedParseError carrying every recorded and
+    undecided error is raised; below the cap (or without one) the call returns"""
+    f, _g, rows_h, _r = context_tables(run)
+    bad = _handle_error_mismatches(rows_h)
+
+    def txt(w):
+        return f": for [{w[0]}] got {w[1]!r}, expected {w[2]!r}" if w else ""
+    w = bad.get("recorded")
+    run.check("R10c", f, "handle_error records the error (self.errors) on every outcome", w is None,
               construct="error not recorded before raise", message="handle_error does not append to self.errors on "
-              "every path before raising", necessity="the collected error set would miss failing items")
-    if len(app) != 1:
-        return
-    caps = [n for n in fa.cfg.nodes if n.kind == "test" and "max_errors" in unparse(n.ast)]
-    run.check("R10c", f, "handle_error has a max_errors cap test", bool(caps), construct="no max_errors test",
-              message="handle_error never tests options.max_errors", necessity="the number of reported errors is unbounded")
-    if not caps:
-        return
-    cap = caps[0]
-    # the cap test lies on every non-raising path from the append to the normal exit
-    reach = fa.cfg.reach_from_succ(app[0], kinds=(N,), avoid=[cap])
-    run.check("R10c", f, "the cap test is on every returning path after the append", fa.cfg.exit not in reach,
-              construct="cap test bypassed", message="handle_error can return after recording an error without "
-              "testing max_errors", necessity="more than max_errors errors can be collected")
-    run.check("R10c", f, "the cap test follows the append", fa.cfg.dominates(app[0], cap),
-              construct="cap test precedes the append", message="max_errors is tested before the new error is "
-              "recorded: the cap is off by one", necessity="max_errors+1 errors are reported")
-    # relation: len(self.errors) >= max_errors  (normalised)
-    rel_ok = False
-    for sub in ast.walk(cap.ast):
-        if isinstance(sub, ast.Compare) and len(sub.ops) == 1:
-            l, op, r = unparse(sub.left), sub.ops[0], unparse(sub.comparators[0])
-            if "len(self.errors)" == l and "max_errors" in r and isinstance(op, ast.GtE):
-                rel_ok = True
-            if "len(self.errors)" == r and "max_errors" in l and isinstance(op, ast.LtE):
-                rel_ok = True
-    run.check("R10c", f, "cap relation is len(errors) >= max_errors", rel_ok,
-              construct="cap relation", message=f"the cap test `{unparse(cap.ast)}` is not len(self.errors) >= max_errors",
-              necessity="with `>` the limit is exceeded by one; with `==`-free variants it may never trigger")
-    # when the cap triggers, a CollectedParseError carrying the recorded errors is raised
-    tb = [s for s, k in cap.succ if s.kind == "branch" and s.polarity]
-    ok = False
-    if tb:
-        for m in fa.cfg.reach_from_succ(tb[0], kinds=(N,)) | {tb[0]}:
-            if m.kind == "stmt" and isinstance(m.ast, ast.Raise) and m.ast.exc is not None \
-                    and "CollectedParseError" in unparse(m.ast.exc):
-                ok = True
-    run.check("R10c", f, "reaching the cap raises CollectedParseError", ok, construct="cap does not raise",
-              message="the max_errors branch does not raise CollectedParseError")
+              "every path before raising" + txt(w), necessity="the collected error set would miss failing items")
+    w = bad.get("cap")
+    off_by_one = bool(w) and "max_errors=" in w[0]
+    run.check("R10c", f, "reaching max_errors raises (cap relation: len(errors) >= max_errors, tested after recording)",
+              w is None, construct="cap relation",
+              message="handle_error does not stop collecting when len(self.errors) reaches max_errors" + txt(w),
+              necessity="more than max_errors errors are collected (with `>` the limit is exceeded by one)")
+    w = bad.get("below-cap")
+    run.check("R10c", f, "below the cap (or without one) handle_error returns and keeps collecting", w is None,
+              construct="cap test precedes the append",
+              message="handle_error raises although fewer than max_errors errors are recorded (or no cap is set)" + txt(w),
+              necessity="collection stops early: fewer failing items are reported than max_errors allows; with "
+                        "max_errors=None nothing may be capped at all")
+    w = bad.get("cap-content")
+    run.check("R10c", f, "reaching the cap raises CollectedParseError with every recorded and undecided error", w is None,
+              construct="cap does not raise", message="the max_errors branch does not raise a CollectedParseError "
+              "carrying all recorded errors" + txt(w))
 
 
 def r10d(run):
